@@ -11,6 +11,7 @@
 * `fork_sign`    - numpy.sign by forking into concrete +1/-1/0.
 * `explore_inputs_first` - symx.core.explore with a sliced / input-only shortcut for branch feasibility.
 * `real_divmod()` - context manager: `//` and `divmod` of an SReal by a positive literal (floor semantics).
+* `refute_fresh`  - a refutation query in a fresh z3 context (process-history independent nlsat variable order).
 * `Chain`        - proof scripts: abstract schemas proved on free variables, instantiated on the terms of a path.
 """
 from __future__ import annotations
@@ -84,6 +85,65 @@ def sym_arctan(u):
 
 
 # ----------------------------------------------------------------------------------------------------------------
+def refute_fresh(goal, hyps, timeout_ms=60000):
+    """`symx.core.refute` decided in a *fresh z3 process*: the query is translated into a new context in a fixed order, written as SMT-LIB and checked
+    by a new interpreter.  Reason (measured): nlsat's running time on the lemma schemas depends on its variable order, which follows AST numbering and
+    memory layout, i.e. the whole history of the calling process - the same schema takes 4 s in a clean process and more than 240 s in some harness
+    processes.  A clean process makes the time reproducible.  Falls back to the in-process fresh context when the sub-process cannot be run.
+    No model is returned (a `sat` of a schema is a harness error anyway)."""
+    import os
+    import subprocess
+    import sys
+    import tempfile
+    import time
+
+    from .core import STATS, Verdict
+
+    ctx = z3.Context()
+    sol = z3.Solver(ctx=ctx)
+    sol.set("timeout", int(timeout_ms))
+    for h in hyps:
+        sol.add(h.translate(ctx))
+    sol.add(z3.Not(goal).translate(ctx))
+    t0 = time.time()
+    r, reason = None, ""
+    try:
+        fd, path = tempfile.mkstemp(suffix=".smt2", prefix="c04_schema_")
+        with os.fdopen(fd, "w") as f:
+            f.write(sol.to_smt2())
+        code = ("import sys, z3\n"
+                "s = z3.Solver()\n"
+                f"s.set('timeout', {int(timeout_ms)})\n"
+                "s.from_file(sys.argv[1])\n"
+                "print('VERDICT', s.check())\n")
+        pr = subprocess.run([sys.executable, "-c", code, path], capture_output=True, text=True, timeout=timeout_ms / 1000 + 60, env=dict(os.environ))
+        for line in pr.stdout.splitlines():
+            if line.startswith("VERDICT "):
+                r = line.split()[1]
+        if r is None:
+            reason = f"sub-process gave no verdict: {pr.stderr[-200:]}"
+    except (OSError, subprocess.SubprocessError) as e:
+        reason = f"sub-process failed: {e}"
+    finally:
+        try:
+            os.remove(path)
+        except (OSError, UnboundLocalError):
+            pass
+    if r is None:
+        try:
+            r = str(sol.check())
+        except z3.Z3Exception as e:
+            r, reason = "unknown", f"z3 error {e}"
+    if r == "unknown" and not reason:
+        reason = "timeout"
+    dt = time.time() - t0
+    STATS.queries += 1
+    STATS.solver_s += dt
+    if r == "unknown":
+        STATS.unknown += 1
+    return Verdict(r, None, dt, reason)
+
+
 class Chain:
     """A proof script over *named abstract facts*.
 
@@ -152,9 +212,86 @@ class Chain:
         self.failed.append((names, v.status))
         return False
 
-    def valid(self, schema):
-        from .core import refute
+    # -- all schemas of a script in one clean helper process, started early and read on demand ----------------------------------------------
+    BATCH = None
 
+    @classmethod
+    def start_batch(cls, facts, schemas, timeout_ms=240000):
+        """write every schema as SMT-LIB (fresh context, fixed order) and let one new interpreter decide them one after the other in the background;
+        `valid` then waits for the verdict it needs.  Same reproducibility argument as `refute_fresh`, without one interpreter start per schema."""
+        import os
+        import subprocess
+        import sys
+        import tempfile
+
+        try:
+            d = tempfile.mkdtemp(prefix="c04_schemas_")
+            names = [n for n in schemas if n not in cls.VALID]
+            for k, n in enumerate(names):
+                hyps, concl = schemas[n]
+                ctx = z3.Context()
+                sol = z3.Solver(ctx=ctx)
+                for h in hyps:
+                    sol.add(facts[h].translate(ctx))
+                sol.add(z3.Not(z3.And(*[facts[c] for c in concl])).translate(ctx))
+                with open(os.path.join(d, f"{k}.smt2"), "w") as f:
+                    f.write(sol.to_smt2())
+            code = ("import sys, time, z3\n"
+                    "d, n = sys.argv[1], int(sys.argv[2])\n"
+                    "for k in range(n):\n"
+                    "    ctx = z3.Context()\n"
+                    "    s = z3.Solver(ctx=ctx)\n"
+                    f"    s.set('timeout', {int(timeout_ms)})\n"
+                    "    s.from_file(d + '/' + str(k) + '.smt2')\n"
+                    "    t0 = time.time()\n"
+                    "    r = s.check()\n"
+                    "    print('VERDICT', k, r, round(time.time() - t0, 3), flush=True)\n")
+            pr = subprocess.Popen([sys.executable, "-c", code, d, str(len(names))], stdout=subprocess.PIPE, stderr=subprocess.DEVNULL, text=True, env=dict(os.environ))
+            cls.BATCH = {"proc": pr, "names": names, "got": {}, "dir": d}
+            import atexit
+
+            atexit.register(cls.stop_batch)
+        except (OSError, subprocess.SubprocessError):
+            cls.BATCH = None
+
+    @classmethod
+    def stop_batch(cls):
+        import shutil
+
+        b, cls.BATCH = cls.BATCH, None
+        if b:
+            try:
+                b["proc"].kill()
+                b["proc"].wait()
+            except OSError:
+                pass
+            shutil.rmtree(b["dir"], ignore_errors=True)
+
+    @classmethod
+    def _from_batch(cls, schema):
+        from .core import STATS, Verdict
+
+        b = cls.BATCH
+        if not b or schema not in b["names"]:
+            return None
+        while schema not in b["got"]:
+            line = b["proc"].stdout.readline()
+            if not line:
+                return None  # helper ended without this verdict
+            p = line.split()
+            if len(p) == 4 and p[0] == "VERDICT":
+                b["got"][b["names"][int(p[1])]] = Verdict(p[2], None, float(p[3]), "timeout" if p[2] == "unknown" else "")
+                STATS.queries += 1
+                STATS.solver_s += float(p[3])
+        return b["got"][schema]
+
+    def valid(self, schema):
+        if schema not in Chain.VALID:
+            v = Chain._from_batch(schema)
+            if v is not None and v.status == "unsat":
+                self._record("schema:" + schema, v)
+                Chain.VALID[schema] = True
+                return True
         if schema not in Chain.VALID:
             hyps, concl = self.S[schema]
             v = None
@@ -166,7 +303,7 @@ class Chain:
                 except NotPolynomial:
                     v = None
             if v is None or v.status != "unsat":
-                v = refute(z3.And(*[self.F[c] for c in concl]), [self.F[h] for h in hyps], 240000)
+                v = refute_fresh(z3.And(*[self.F[c] for c in concl]), [self.F[h] for h in hyps], 240000)
             self._record("schema:" + schema, v)
             Chain.VALID[schema] = v.status == "unsat"
         return Chain.VALID[schema]
